@@ -22,6 +22,9 @@ use crate::simterm::SimTerm;
 pub struct ObsShared {
     /// (pos, len, finished) seen by every `write` call
     pub writes: Vec<(u64, Option<u64>, bool)>,
+    /// number of frames the terminal had painted when the corresponding `write` happened
+    pub write_flushes: Vec<u64>,
+    pub term: Option<SimTerm>,
     pub ticks: u64,
     pub resets: u64,
 }
@@ -43,11 +46,12 @@ impl ProgressTracker for Obs {
         self.shared.lock().unwrap().resets += 1;
     }
     fn write(&self, state: &ProgressState, w: &mut dyn std::fmt::Write) {
-        self.shared
-            .lock()
-            .unwrap()
-            .writes
-            .push((state.pos(), state.len(), state.is_finished()));
+        {
+            let mut sh = self.shared.lock().unwrap();
+            let f = sh.term.as_ref().map_or(0, |t| t.flushes());
+            sh.writes.push((state.pos(), state.len(), state.is_finished()));
+            sh.write_flushes.push(f);
+        }
         let _ = w.write_str(&self.text);
     }
 }
@@ -138,6 +142,9 @@ pub struct Stage {
     pub log_count: usize,
     /// result of the last io::Result-returning call (mp.println / mp.clear): Some(is_err)
     pub last_io_err: Option<bool>,
+    /// for the check after the current call only: what the call's bar showed at the last frame
+    /// painted during the call (a call with several draws may end with an unpainted one)
+    pub shown_override: Option<(usize, Vec<String>)>,
 }
 
 pub struct OpResult {
@@ -200,6 +207,7 @@ impl Stage {
             out_of_scope: None,
             log_count: 0,
             last_io_err: None,
+            shown_override: None,
         }
     }
 
@@ -228,6 +236,7 @@ impl Stage {
         let obs_text = op.s.get(2).cloned().unwrap_or_default();
         let on_finish = op.n.get(4).copied().unwrap_or(2);
         let obs = Arc::new(StdMutex::new(ObsShared::default()));
+        obs.lock().unwrap().term = Some(self.term.clone());
         let style = make_style(&template, &obs, &obs_text)?;
         let target = if self.multi {
             ProgressDrawTarget::hidden()
@@ -308,6 +317,7 @@ impl Stage {
     /// Execute one operation against the real library and the model.
     pub fn exec(&mut self, op: &Op, r: &mut Report) -> OpResult {
         self.op_idx += 1;
+        self.shown_override = None;
         self.term.set_op(self.op_idx);
         let calls0 = self.term.n_calls();
         let flush0 = self.term.flushes();
@@ -746,6 +756,23 @@ impl Stage {
                 }
                 let lines = at_render.render();
                 self.bars[b].abs.submitted = Some(lines);
+                // the last render of this call that was followed by a painted frame
+                let flushes_now = self.term.flushes();
+                let painted_idx = {
+                    let sh = self.bars[b].obs.lock().unwrap();
+                    (writes0..sh.writes.len()).rev().find(|i| sh.write_flushes[*i] < flushes_now)
+                };
+                let last_idx = self.obs_writes(b) - 1;
+                if let Some(pi) = painted_idx {
+                    if pi != last_idx && self.multi {
+                        let (ppos, plen, _) = self.bars[b].obs.lock().unwrap().writes[pi];
+                        let mut shown = self.bars[b].abs.clone();
+                        shown.pos = ppos;
+                        shown.len = plen;
+                        self.shown_override = Some((b, shown.render()));
+                        r.probe("last_render_of_call_not_painted");
+                    }
+                }
             } else if finishing && self.bars[b].abs.status == Status::DoneHidden {
                 // a hidden-finished bar submits an empty frame (nothing is rendered)
                 self.bars[b].abs.submitted = Some(vec![]);
@@ -882,7 +909,11 @@ impl Stage {
             }
             for &b in &self.members {
                 let abs = &self.bars[b].abs;
-                if let Some(l) = &abs.submitted {
+                let lines = match &self.shown_override {
+                    Some((ob, l)) if *ob == b => Some(l),
+                    _ => abs.submitted.as_ref(),
+                };
+                if let Some(l) = lines {
                     if !l.is_empty() {
                         v.push((b, l.clone(), abs.dropped && abs.vanishable));
                     }
